@@ -57,6 +57,7 @@ class Session:
         self.cancelled: set[int] = set()
         self.findings: list[core.Finding] = []
         self.ops: list = []
+        self.stopped = False               # Runner.stop() is the last thing labtech does with an executor: nothing is submitted or awaited afterwards
 
     # -- helpers -------------------------------------------------------------------------------------------------------
     def _started(self) -> set[int]:
@@ -177,6 +178,7 @@ class Session:
 
     def stop(self) -> None:
         self.ops.append(['stop'])
+        self.stopped = True
         pids = {idx: self._pid(idx) for idx in self.running if idx in self._started()}
         self.ex.stop()
         t_end = time.monotonic() + 15
@@ -221,7 +223,7 @@ def replay_ops(mw: int, ops: list) -> list[core.Finding]:
                 s.cancel()
             elif op[0] == 'stop':
                 s.stop()
-            if s.findings:
+            if s.findings or s.stopped:
                 break
         return list(s.findings)
     finally:
@@ -254,50 +256,60 @@ def run_machines(rec: core.Recorder, engine: str, prefix: str, n: int, steps: in
                 state['last'] = ({'max_workers': self.s.mw, 'ops': list(self.s.ops)}, bad)
                 raise core.PropertyViolation(bad[0].signature)
 
-        @precondition(lambda self: self.s is not None and len(self.s.futures) < 9)
+        @precondition(lambda self: self.s is not None and not self.s.stopped and len(self.s.futures) < 9)
         @rule()
         def submit(self):
             self.s.submit()
             self._check()
 
-        @precondition(lambda self: self.s is not None and self.s.running)
+        @precondition(lambda self: self.s is not None and not self.s.stopped and self.s.running)
         @rule(k=st.integers(0, 5))
         def release(self, k):
             self.s.release(k)
             self._check()
 
-        @precondition(lambda self: self.s is not None and self.s.running)
+        @precondition(lambda self: self.s is not None and not self.s.stopped and self.s.running)
         @rule(k=st.integers(0, 5), sig=st.sampled_from([int(signal.SIGKILL), int(signal.SIGTERM)]))
         def kill(self, k, sig):
             self.s.kill(k, sig)
             self._check()
 
-        @precondition(lambda self: self.s is not None)
+        @precondition(lambda self: self.s is not None and not self.s.stopped)
         @rule()
         def wait(self):
             self.s.wait()
             self._check()
 
-        @precondition(lambda self: self.s is not None and self.s.pending)
+        @precondition(lambda self: self.s is not None and not self.s.stopped and self.s.pending)
         @rule()
         def cancel(self):
             self.s.cancel()
             self._check()
 
-        @precondition(lambda self: self.s is not None and (self.s.running or self.s.expect))
+        @precondition(lambda self: self.s is not None and not self.s.stopped and (self.s.running or self.s.expect))
         @rule()
         def stop(self):
             self.s.stop()
             self._check()
 
+        def _finish(self):
+            ops = self.s.ops
+            kinds = {o[0] for o in ops}
+            nt = ('kill' in kinds or 'release' in kinds) and 'wait' in kinds and any(o[0] == 'submit' for o in ops[2:])
+            rec.case(engine, {'max_workers': self.s.mw, 'ops': ops}, core.CaseResult(nontrivial=nt, labels=tuple(f'op={k}' for k in sorted(kinds)),
+                                                                                      summary={'ops': ops[:14]}))
+            self.s.close()
+            self.s = None
+
+        @precondition(lambda self: self.s is not None and self.s.stopped)
+        @rule()
+        def discard_stopped_executor(self):
+            # as Lab does after Runner.stop(): the executor is dropped; a later run builds a new one
+            self._finish()
+
         def teardown(self):
             if self.s is not None:
-                ops = self.s.ops
-                kinds = {o[0] for o in ops}
-                nt = ('kill' in kinds or 'release' in kinds) and 'wait' in kinds and any(o[0] == 'submit' for o in ops[2:])
-                rec.case(engine, {'max_workers': self.s.mw, 'ops': ops}, core.CaseResult(nontrivial=nt, labels=tuple(f'op={k}' for k in sorted(kinds)),
-                                                                                          summary={'ops': ops[:14]}))
-                self.s.close()
+                self._finish()
 
     for rnd in range(2):
         state['last'] = None
